@@ -1166,6 +1166,321 @@ theorem C15_mp_bound_irrelevant (f : Nat) (bs : List Nat) (v : MV) (r : List Nat
 end AnonModel.Msgpack
 
 namespace AnonModel.Msgpack
+/-! ## what the reader consumes -/
+
+/-- `r` is what remains of `bs` after at least `k` bytes -/
+def After (k : Nat) (bs r : List Nat) : Prop := ∃ pre, k ≤ pre.length ∧ bs = pre ++ r
+
+theorem After.refl (bs : List Nat) : After 0 bs bs := ⟨[], Nat.le_refl _, rfl⟩
+theorem After.cons {k : Nat} {bs r : List Nat} (b : Nat) (h : After k bs r) : After (k + 1) (b :: bs) r := by
+  obtain ⟨pre, hl, e⟩ := h; exact ⟨b :: pre, by simp; omega, by simp [e]⟩
+theorem After.trans {j k : Nat} {a b c : List Nat} (h1 : After j a b) (h2 : After k b c) : After (j + k) a c := by
+  obtain ⟨p, hp, e1⟩ := h1; obtain ⟨q, hq, e2⟩ := h2
+  exact ⟨p ++ q, by simp; omega, by rw [e1, e2, List.append_assoc]⟩
+theorem After.weaken {j k : Nat} {a b : List Nat} (h : After k a b) (hj : j ≤ k) : After j a b := by
+  obtain ⟨p, hp, e⟩ := h; exact ⟨p, by omega, e⟩
+
+theorem takeN_after {n : Nat} {bs h r : List Nat} (e : takeN n bs = some (h, r)) : After n bs r := by
+  obtain ⟨hl, hs⟩ := takeN_spec e; exact ⟨h, by omega, hs⟩
+theorem readBe_after {k n : Nat} {bs r : List Nat} (e : readBe k bs = some (n, r)) : After k bs r := by
+  unfold readBe at e
+  cases ht : takeN k bs with
+  | none => simp [ht] at e
+  | some p =>
+    obtain ⟨h, r'⟩ := p
+    rw [ht] at e
+    simp only [Option.some.injEq, Prod.mk.injEq] at e
+    obtain ⟨_, e2⟩ := e
+    subst e2
+    exact takeN_after ht
+theorem readRun_after {k : Nat} {bs s r : List Nat} (e : readRun k bs = some (s, r)) : After k bs r := by
+  unfold readRun at e
+  cases hr : readBe k bs with
+  | none => simp [hr] at e
+  | some p =>
+    obtain ⟨n, r'⟩ := p
+    rw [hr] at e
+    simp only at e
+    exact ((readBe_after hr).trans (takeN_after e)).weaken (by omega)
+
+/-- every value takes at least one byte, and what the reader hands back is exactly the rest of the input -/
+theorem dec_decN_after : ∀ f : Nat,
+    (∀ bs v r, dec f bs = some (v, r) → After 1 bs r) ∧
+    (∀ n bs xs r, decN f n bs = some (xs, r) → After n bs r) := by
+  intro f
+  induction f with
+  | zero =>
+    refine ⟨fun bs v r h => by simp [dec] at h, fun n bs xs r h => ?_⟩
+    cases n with
+    | zero => simp only [decN, Option.some.injEq, Prod.mk.injEq] at h; obtain ⟨_, h2⟩ := h; subst h2; exact After.refl _
+    | succ n => simp [decN] at h
+  | succ f ih =>
+    obtain ⟨ihd, ihn⟩ := ih
+    refine ⟨?_, ?_⟩
+    · intro bs v r h
+      cases bs with
+      | nil => simp [dec] at h
+      | cons b rest =>
+        by_cases c1 : b < 128
+        · rw [dec_pfix c1] at h
+          simp only [Option.some.injEq, Prod.mk.injEq] at h; obtain ⟨_, h2⟩ := h; subst h2
+          exact (After.refl _).cons b
+        by_cases c2 : b < 144
+        · have e : b = 0x80 + (b - 128) := by omega
+          rw [e, dec_fixmap (by omega)] at h
+          cases hd : decN f (2 * (b - 128)) rest with
+          | none => simp [hd] at h
+          | some p =>
+            obtain ⟨xs, r'⟩ := p
+            rw [hd] at h
+            simp only [Option.some.injEq, Prod.mk.injEq] at h; obtain ⟨_, h2⟩ := h; subst h2
+            exact ((ihn _ _ _ _ hd).cons _).weaken (by omega)
+        by_cases c3 : b < 160
+        · have e : b = 0x90 + (b - 144) := by omega
+          rw [e, dec_fixarr (by omega)] at h
+          cases hd : decN f (b - 144) rest with
+          | none => simp [hd] at h
+          | some p =>
+            obtain ⟨xs, r'⟩ := p
+            rw [hd] at h
+            simp only [Option.some.injEq, Prod.mk.injEq] at h; obtain ⟨_, h2⟩ := h; subst h2
+            exact ((ihn _ _ _ _ hd).cons _).weaken (by omega)
+        by_cases c4 : b < 192
+        · have e : b = 0xa0 + (b - 160) := by omega
+          rw [e, dec_fixstr (by omega)] at h
+          cases hd : takeN (b - 160) rest with
+          | none => simp [hd] at h
+          | some p =>
+            obtain ⟨s, r'⟩ := p
+            rw [hd] at h
+            simp only [Option.some.injEq, Prod.mk.injEq] at h; obtain ⟨_, h2⟩ := h; subst h2
+            exact ((takeN_after hd).cons _).weaken (by omega)
+        by_cases c5 : 224 ≤ b
+        · by_cases c6 : b < 256
+          · rw [dec_nfix c5 c6] at h
+            simp only [Option.some.injEq, Prod.mk.injEq] at h; obtain ⟨_, h2⟩ := h; subst h2
+            exact (After.refl _).cons b
+          · simp only [dec] at h
+            repeat (first | rw [if_neg (by omega)] at h)
+            cases h
+        have hcases : b = 192 ∨ b = 193 ∨ b = 194 ∨ b = 195 ∨ b = 196 ∨ b = 197 ∨ b = 198 ∨ b = 199 ∨ b = 200 ∨ b = 201 ∨ b = 202 ∨ b = 203 ∨ b = 204 ∨ b = 205 ∨ b = 206 ∨ b = 207 ∨ b = 208 ∨ b = 209 ∨ b = 210 ∨ b = 211 ∨ b = 212 ∨ b = 213 ∨ b = 214 ∨ b = 215 ∨ b = 216 ∨ b = 217 ∨ b = 218 ∨ b = 219 ∨ b = 220 ∨ b = 221 ∨ b = 222 ∨ b = 223 := by omega
+        rcases hcases with e | e | e | e | e | e | e | e | e | e | e | e | e | e | e | e | e | e | e | e | e | e | e | e | e | e | e | e | e | e | e | e
+        · subst e; rw [dec_c0] at h; simp only [Option.some.injEq, Prod.mk.injEq] at h; obtain ⟨_, h2⟩ := h; subst h2; exact (After.refl _).cons _
+        · subst e; simp [dec] at h
+        · subst e; rw [dec_c2] at h; simp only [Option.some.injEq, Prod.mk.injEq] at h; obtain ⟨_, h2⟩ := h; subst h2; exact (After.refl _).cons _
+        · subst e; rw [dec_c3] at h; simp only [Option.some.injEq, Prod.mk.injEq] at h; obtain ⟨_, h2⟩ := h; subst h2; exact (After.refl _).cons _
+        · subst e; rw [dec_c4] at h
+          cases hd : readRun 1 rest with
+          | none => simp [hd] at h
+          | some p =>
+            obtain ⟨s, r'⟩ := p
+            rw [hd] at h
+            simp only [Option.some.injEq, Prod.mk.injEq] at h; obtain ⟨_, h2⟩ := h; subst h2
+            exact ((readRun_after hd).cons _).weaken (by omega)
+        · subst e; rw [dec_c5] at h
+          cases hd : readRun 2 rest with
+          | none => simp [hd] at h
+          | some p =>
+            obtain ⟨s, r'⟩ := p
+            rw [hd] at h
+            simp only [Option.some.injEq, Prod.mk.injEq] at h; obtain ⟨_, h2⟩ := h; subst h2
+            exact ((readRun_after hd).cons _).weaken (by omega)
+        · subst e; rw [dec_c6] at h
+          cases hd : readRun 4 rest with
+          | none => simp [hd] at h
+          | some p =>
+            obtain ⟨s, r'⟩ := p
+            rw [hd] at h
+            simp only [Option.some.injEq, Prod.mk.injEq] at h; obtain ⟨_, h2⟩ := h; subst h2
+            exact ((readRun_after hd).cons _).weaken (by omega)
+        · subst e; simp [dec] at h
+        · subst e; simp [dec] at h
+        · subst e; simp [dec] at h
+        · subst e; simp [dec] at h
+        · subst e; simp [dec] at h
+        · subst e; rw [dec_cc] at h
+          cases hd : readBe 1 rest with
+          | none => simp [hd] at h
+          | some p =>
+            obtain ⟨s, r'⟩ := p
+            rw [hd] at h
+            simp only [Option.some.injEq, Prod.mk.injEq] at h; obtain ⟨_, h2⟩ := h; subst h2
+            exact ((readBe_after hd).cons _).weaken (by omega)
+        · subst e; rw [dec_cd] at h
+          cases hd : readBe 2 rest with
+          | none => simp [hd] at h
+          | some p =>
+            obtain ⟨s, r'⟩ := p
+            rw [hd] at h
+            simp only [Option.some.injEq, Prod.mk.injEq] at h; obtain ⟨_, h2⟩ := h; subst h2
+            exact ((readBe_after hd).cons _).weaken (by omega)
+        · subst e; rw [dec_ce] at h
+          cases hd : readBe 4 rest with
+          | none => simp [hd] at h
+          | some p =>
+            obtain ⟨s, r'⟩ := p
+            rw [hd] at h
+            simp only [Option.some.injEq, Prod.mk.injEq] at h; obtain ⟨_, h2⟩ := h; subst h2
+            exact ((readBe_after hd).cons _).weaken (by omega)
+        · subst e; rw [dec_cf] at h
+          cases hd : readBe 8 rest with
+          | none => simp [hd] at h
+          | some p =>
+            obtain ⟨s, r'⟩ := p
+            rw [hd] at h
+            simp only [Option.some.injEq, Prod.mk.injEq] at h; obtain ⟨_, h2⟩ := h; subst h2
+            exact ((readBe_after hd).cons _).weaken (by omega)
+        · subst e; rw [dec_d0] at h
+          cases hd : readBe 1 rest with
+          | none => simp [hd] at h
+          | some p =>
+            obtain ⟨s, r'⟩ := p
+            rw [hd] at h
+            simp only [Option.some.injEq, Prod.mk.injEq] at h; obtain ⟨_, h2⟩ := h; subst h2
+            exact ((readBe_after hd).cons _).weaken (by omega)
+        · subst e; rw [dec_d1] at h
+          cases hd : readBe 2 rest with
+          | none => simp [hd] at h
+          | some p =>
+            obtain ⟨s, r'⟩ := p
+            rw [hd] at h
+            simp only [Option.some.injEq, Prod.mk.injEq] at h; obtain ⟨_, h2⟩ := h; subst h2
+            exact ((readBe_after hd).cons _).weaken (by omega)
+        · subst e; rw [dec_d2] at h
+          cases hd : readBe 4 rest with
+          | none => simp [hd] at h
+          | some p =>
+            obtain ⟨s, r'⟩ := p
+            rw [hd] at h
+            simp only [Option.some.injEq, Prod.mk.injEq] at h; obtain ⟨_, h2⟩ := h; subst h2
+            exact ((readBe_after hd).cons _).weaken (by omega)
+        · subst e; rw [dec_d3] at h
+          cases hd : readBe 8 rest with
+          | none => simp [hd] at h
+          | some p =>
+            obtain ⟨s, r'⟩ := p
+            rw [hd] at h
+            simp only [Option.some.injEq, Prod.mk.injEq] at h; obtain ⟨_, h2⟩ := h; subst h2
+            exact ((readBe_after hd).cons _).weaken (by omega)
+        · subst e; simp [dec] at h
+        · subst e; simp [dec] at h
+        · subst e; simp [dec] at h
+        · subst e; simp [dec] at h
+        · subst e; simp [dec] at h
+        · subst e; rw [dec_d9] at h
+          cases hd : readRun 1 rest with
+          | none => simp [hd] at h
+          | some p =>
+            obtain ⟨s, r'⟩ := p
+            rw [hd] at h
+            simp only [Option.some.injEq, Prod.mk.injEq] at h; obtain ⟨_, h2⟩ := h; subst h2
+            exact ((readRun_after hd).cons _).weaken (by omega)
+        · subst e; rw [dec_da] at h
+          cases hd : readRun 2 rest with
+          | none => simp [hd] at h
+          | some p =>
+            obtain ⟨s, r'⟩ := p
+            rw [hd] at h
+            simp only [Option.some.injEq, Prod.mk.injEq] at h; obtain ⟨_, h2⟩ := h; subst h2
+            exact ((readRun_after hd).cons _).weaken (by omega)
+        · subst e; rw [dec_db] at h
+          cases hd : readRun 4 rest with
+          | none => simp [hd] at h
+          | some p =>
+            obtain ⟨s, r'⟩ := p
+            rw [hd] at h
+            simp only [Option.some.injEq, Prod.mk.injEq] at h; obtain ⟨_, h2⟩ := h; subst h2
+            exact ((readRun_after hd).cons _).weaken (by omega)
+        · subst e; rw [dec_dc] at h
+          cases hd : readBe 2 rest with
+          | none => simp [hd] at h
+          | some p =>
+            obtain ⟨n, r'⟩ := p
+            rw [hd] at h
+            simp only at h
+            cases hq : decN f n r' with
+            | none => simp [hq] at h
+            | some q =>
+              obtain ⟨xs, r2⟩ := q
+              rw [hq] at h
+              simp only [Option.some.injEq, Prod.mk.injEq] at h; obtain ⟨_, h2⟩ := h; subst h2
+              exact (((readBe_after hd).trans (ihn _ _ _ _ hq)).cons _).weaken (by omega)
+        · subst e; rw [dec_dd] at h
+          cases hd : readBe 4 rest with
+          | none => simp [hd] at h
+          | some p =>
+            obtain ⟨n, r'⟩ := p
+            rw [hd] at h
+            simp only at h
+            cases hq : decN f n r' with
+            | none => simp [hq] at h
+            | some q =>
+              obtain ⟨xs, r2⟩ := q
+              rw [hq] at h
+              simp only [Option.some.injEq, Prod.mk.injEq] at h; obtain ⟨_, h2⟩ := h; subst h2
+              exact (((readBe_after hd).trans (ihn _ _ _ _ hq)).cons _).weaken (by omega)
+        · subst e; rw [dec_de] at h
+          cases hd : readBe 2 rest with
+          | none => simp [hd] at h
+          | some p =>
+            obtain ⟨n, r'⟩ := p
+            rw [hd] at h
+            simp only at h
+            cases hq : decN f (2 * n) r' with
+            | none => simp [hq] at h
+            | some q =>
+              obtain ⟨xs, r2⟩ := q
+              rw [hq] at h
+              simp only [Option.some.injEq, Prod.mk.injEq] at h; obtain ⟨_, h2⟩ := h; subst h2
+              exact (((readBe_after hd).trans (ihn _ _ _ _ hq)).cons _).weaken (by omega)
+        · subst e; rw [dec_df] at h
+          cases hd : readBe 4 rest with
+          | none => simp [hd] at h
+          | some p =>
+            obtain ⟨n, r'⟩ := p
+            rw [hd] at h
+            simp only at h
+            cases hq : decN f (2 * n) r' with
+            | none => simp [hq] at h
+            | some q =>
+              obtain ⟨xs, r2⟩ := q
+              rw [hq] at h
+              simp only [Option.some.injEq, Prod.mk.injEq] at h; obtain ⟨_, h2⟩ := h; subst h2
+              exact (((readBe_after hd).trans (ihn _ _ _ _ hq)).cons _).weaken (by omega)
+    · intro n bs xs r h
+      cases n with
+      | zero => simp only [decN, Option.some.injEq, Prod.mk.injEq] at h; obtain ⟨_, h2⟩ := h; subst h2; exact After.refl _
+      | succ n =>
+        simp only [decN] at h
+        cases hd : dec f bs with
+        | none => simp [hd] at h
+        | some p =>
+          obtain ⟨x, r1⟩ := p
+          rw [hd] at h
+          simp only at h
+          cases hn : decN f n r1 with
+          | none => simp [hn] at h
+          | some q =>
+            obtain ⟨ys, r2⟩ := q
+            rw [hn] at h
+            simp only [Option.some.injEq, Prod.mk.injEq] at h; obtain ⟨_, h2⟩ := h; subst h2
+            exact ((ihd _ _ _ hd).trans (ihn _ _ _ _ hn)).weaken (by omega)
+
+/-- **a value takes at least one byte and the reader hands back exactly the rest**: `n` values in a row take at least `n`
+bytes, so a length field larger than the input can never be honoured -/
+theorem C15_mp_reads_prefix (f : Nat) (bs : List Nat) (v : MV) (r : List Nat) (h : dec f bs = some (v, r)) :
+    ∃ pre, pre ≠ [] ∧ bs = pre ++ r := by
+  obtain ⟨pre, hl, e⟩ := (dec_decN_after f).1 bs v r h
+  exact ⟨pre, by intro e'; subst e'; simp at hl, e⟩
+
+theorem C15_mp_count_bounded (f n : Nat) (bs : List Nat) (xs : List MV) (r : List Nat) (h : decN f n bs = some (xs, r)) :
+    n + r.length ≤ bs.length := by
+  obtain ⟨pre, hl, e⟩ := (dec_decN_after f).2 n bs xs r h
+  subst e; simp; omega
+
+end AnonModel.Msgpack
+
+namespace AnonModel.Msgpack
 /-! non-vacuity of the typed hypotheses: a map with the one required member of `PresentationProofValue` -/
 example : payloadKind (.map [.str (key "aggregated"), .nil]) = some 3 := by
   simp [payloadKind, hasKeys, field, key]
